@@ -21,7 +21,7 @@ theorem stack_reachable {fp : FdlParams} (hfp : FpOk fp) (p : Params)
     {k' : Stack.State} {l : List Stack.MCall} (h : Stack.run fp (Stack.init p slots gr) calls = .ok (k', l))
     {pre post : List Stack.MCall} {x : Stack.MCall} (hl : l = pre ++ x :: post) :
     ∃ g g', grun fp (G.init slots gr) (pre.map Stack.toOp) = .ok g ∧ gstep fp g (Stack.toOp x) = .ok g' ∧
-      Dp.Inv fp g ∧ (g.staleEv = false → Inv14 g) := by
+      Dp.Inv fp g ∧ Inv14 g := by
   obtain ⟨g, g', e1, e2⟩ := Stack.stack_step hfp p haddr hinit gr calls ht0 ht h hl
   obtain ⟨hI, hr⟩ := reachable hfp hinit gr _ e1
   exact ⟨g, g', e1, e2, hI, hr⟩
